@@ -84,6 +84,7 @@ structure RtCtx (F : Facts08) (G : Facts02) (cfg : Cfg) (S : Spell) (rd : Bool) 
   hG : G.GoodRT
   hsc : S.consistent = true
   hiw : S.iw = cfg.ignoreWrappers
+  hnw : ∀ n, S.nw n = cfg.notWrapped.contains n
   hkey : ∀ n, keyName cfg (S.kOut n) = .good (some n)
   hwkey : ∀ n, wrapperKey G (S.kOut n) = .good (some n)
   hleaf : ∀ p o v, p.valueOk v = true → mpLeaf F cfg rd p v → primIn F G cfg p o (S.lOut p v) = .good v
@@ -91,6 +92,10 @@ structure RtCtx (F : Facts08) (G : Facts02) (cfg : Cfg) (S : Spell) (rd : Bool) 
   hnn : ∀ p v, p.valueOk v = true → (S.lOut p v).isNull = false
 
 variable {F : Facts08} {G : Facts02} {cfg : Cfg} {S : Spell} {rd : Bool} (R : Registry)
+
+/-- writer and reader agree on which classes travel without a wrapper -/
+theorem RtCtx.unwrapped_eq (C : RtCtx F G cfg S rd) (n : Text) : (S.iw || S.nw n) = cfg.unwrapped n := by
+  simp [C.hiw, C.hnw, Cfg.unwrapped]
 
 /-- side conditions on a value for MessagePack -/
 def mpOk (F : Facts08) (cfg : Cfg) (rd : Bool) (t : Ty) (v : Val) : Prop :=
@@ -178,7 +183,7 @@ theorem encode_not_null (C : RtCtx F G cfg S rd) (t : Ty) (v : Val) (hv : v ≠ 
     | obj n ns b fs o =>
       obtain ⟨fvs, rfl, _⟩ := conformsOne_obj n ns b fs o v hv hc
       simp only [encodeS, wrapPairs]
-      cases S.cas <;> cases S.iw <;> simp [Doc.isNull]
+      cases S.cas <;> simp only [] <;> (try split) <;> simp [Doc.isNull]
     | arr m e o =>
       obtain ⟨vs, rfl, _⟩ := conformsOne_arr m e o v hv hc
       simp [encodeS, Doc.isNull]
@@ -562,16 +567,17 @@ mutual
       · -- mappings
         have hk := kvs_rt R C hca fields fields [] fvs [] hP (by simp) (by simpa using hw.1) (by simp [slotNames]) hw.2 hcf hmpf hplf
         simp only [List.nil_append] at hk
-        cases hiw : cfg.ignoreWrappers
-        · have hiwS : S.iw = false := by rw [C.hiw]; exact hiw
-          simp only [wrapPairs, hca, hiwS, Bool.false_eq_true, if_false]
+        have hS := C.unwrapped_eq n
+        cases hiw : cfg.unwrapped n
+        · rw [hiw] at hS
+          simp only [wrapPairs, hca, hS, Bool.false_eq_true, if_false]
           simp only [decode, hiw, Bool.false_eq_true, if_false, decodeWrapped, C.hwkey, Res.good_bind,
             resolveClass, if_true, decodeBody]
           have hk' : decodeKvs F G cfg R fields (List.map (fun p => (S.kOut p.fst, p.snd)) (encodeFields S R fields fvs))
               (initAcc fields) = Res.good (finalSlots S fields fvs) := hk
           rw [hk']; simp [finish_final C n fields fvs hw.2 hcf]
-        · have hiwS : S.iw = true := by rw [C.hiw]; exact hiw
-          simp only [wrapPairs, hca, hiwS, if_true]
+        · rw [hiw] at hS
+          simp only [wrapPairs, hca, hS, if_true]
           simp only [decode, hiw, if_true]
           have hk' : decodeKvs F G cfg R fields (List.map (fun p => (S.kOut p.fst, p.snd)) (encodeFields S R fields fvs))
               (initAcc fields) = Res.good (finalSlots S fields fvs) := hk
@@ -581,7 +587,8 @@ mutual
           have := C.hsc; rw [← C.hiw]; simpa [Spell.consistent, hca] using this
         have hk := pos_rt R C hca fields fields [] fvs [] hP (by simpa using hw.1) (by simp [slotNames]) hw.2 hcf hmpf hplf
         simp only [List.nil_append] at hk
-        simp only [wrapPairs, hca, decode, hiw, if_true]
+        have hu : cfg.unwrapped n = true := by simp [Cfg.unwrapped, hiw]
+        simp only [wrapPairs, hca, decode, hu, if_true]
         rw [hk]; simp [finish_final C n fields fvs hw.2 hcf]
 
   theorem rt_fields (C : RtCtx F G cfg S rd) : ∀ (fs : Fields), ∀ nt ∈ fs, RtOne F G cfg S R rd nt.2
